@@ -3,6 +3,7 @@
 
 pub mod backend;
 pub mod ck_crash;
+pub mod ck_cycle;
 pub mod ck_engine;
 pub mod ck_sets;
 pub mod ck_storage;
